@@ -737,7 +737,9 @@ func writeChunkedSegment(ctx context.Context, log *slog.Logger, w http.ResponseW
 		if ctx.Err() != nil {
 			return ctx.Err()
 		}
-		chunkAvailMS := chunkAvailTime * 1000 / int(rep.MediaTimescale)
+		// whole seconds and the rest separately: ticks x 1000 overflows 63 bits at present-day times with a 10 MHz timescale
+		ts := int(rep.MediaTimescale)
+		chunkAvailMS := chunkAvailTime/ts*1000 + chunkAvailTime%ts*1000/ts
 		if chunkAvailMS < nowMS {
 			err = writeChunk(w, chk)
 			if err != nil {
